@@ -46,4 +46,14 @@ def range3 (a b c : Int) : List Int :=
   else if c < 0 then (List.range ((a - b + (-c) - 1) / (-c)).toNat).map fun (i : Nat) => a + c * (i : Int)
   else []
 
+/-- a CPU buffer object: the attribute `buffer` is its bytes -/
+structure Buf where
+  buffer_ : List UInt8
+
+/-- `x[a:b]` for non-negative bounds (Python truncates silently at the end) -/
+def slice (xs : List UInt8) (a b : Int) : List UInt8 := (xs.drop a.toNat).take (b.toNat - a.toNat)
+
+/-- `x[a:b] = src` on a bytearray for non-negative bounds (a NumPy array refuses a source of another length: not modelled) -/
+def setslice (xs : List UInt8) (a b : Int) (src : List UInt8) : List UInt8 := xs.take a.toNat ++ src ++ xs.drop b.toNat
+
 end Py
